@@ -83,7 +83,10 @@ def metadata_problems(outs, got, world, dag):
 def eval_case(case, seed, tier):
     cnt = Counter()
     probs = []
-    for optimize in ((True,) if tier == "quick" else (True, False)):
+    # quick: unoptimized plans (every intermediate is written) on the deterministic half of the cases whose hash is even
+    from ..common import stable_hash
+    both = tier != "quick" or int(stable_hash({k: v for k, v in case.items() if not k.startswith("_")}), 16) % 2 == 0
+    for optimize in ((True, False) if both else (True,)):
         obs = run_case(case, seed=seed, optimize=optimize, monitor=True, keep_world=True)
         try:
             cnt["evaluations"] += 1
